@@ -4,6 +4,12 @@ EXTENDS VbftSelect
 TablesQ == {<<1, 2, 3, 4>>, <<1, 2, 3, 4, 5, 6, 7>>}
 TablesT == TablesQ \cup {<<1, 2, 3, 4, 4, 3, 2, 1>>, <<1, 2, 3, 4, 5>>, <<1, 1, 2, 2, 3, 3, 4, 4>>, <<1, 2, 3, 4, 5, 6>>, <<1, 2, 3, 1, 2, 3>>, <<3, 1, 4, 1, 5, 2, 6>>,
                         <<1, 2, 3, 4, 5, 1, 2>>, <<2, 1, 4, 3, 1, 2, 3, 4>>, <<1, 2, 3, 4, 5, 6, 7, 8>>}
+AllBytes == 0..255
+NoNew == {<<>>}
+\* round after a chain-config block: current table x {no new config, new table with other N, C and membership}
+RoundCur == {<<1, 2, 3, 4>>, <<1, 2, 3, 4, 5, 6, 7>>}
+RoundNew == {<<>>, <<2, 3, 4, 5, 6, 7, 8>>, <<5, 6, 7, 5, 6, 8>>}
+RoundBytes == {0, 1, 2, 3, 5, 8, 13, 21, 34, 55, 89, 144, 233, 255, 128, 64, 32, 16, 170, 85, 204, 51, 240, 15, 199, 100, 77, 200, 250, 7, 99, 180}
 \* vacuity guard: on the first table some seeds yield a selection and some do not
 ASSUME \E a \in 0..255 : ~Build(<<a, 255 - a>>, <<1, 2, 3, 4>>, 4, 1).err
 ASSUME Build(<<1, 0>>, <<1, 2, 3, 4>>, 4, 1).err
